@@ -340,6 +340,16 @@ Definition max_time_step (cur new : option str) : result (option str) :=
   | Some x => match cur with None => Ok (Some x) | Some c => do y <- max_time c x; Ok (Some y) end
   end.
 
+(* The code before "fix: combine_max compares wall times by duration": max(a, b) on Python strings,
+   i.e. lexicographic order of code points (kept only to state the refutation of the old behaviour). *)
+Fixpoint str_ltb (a b : str) : bool :=
+  match a, b with
+  | _, [] => false
+  | [], _ :: _ => true
+  | x :: a', y :: b' => if code x <? code y then true else if code y <? code x then false else str_ltb a' b'
+  end.
+Definition max_time_prefix (a b : str) : str := if str_ltb a b then b else a.
+
 Definition combine_step (st : result maxdata) (r : res) : result maxdata :=
   do md <- st;
   let c := max_opt_z (m_cpus md) (cpus r) in
